@@ -27,3 +27,17 @@ reg("C03", "explore", "model_checking",
     "the snapshot function (reflective, can only over-distinguish).",
     "DESIGN.md section 6 C03")
 NOT_APPLICABLE = {}
+
+reg("C01", "explore", "exploration",
+    "bounded-exhaustive enumeration of send-side inputs against an independent frame decoder",
+    "Every payload length 0..70000 (thorough) for the main API entries, boundary lengths for the full cross product of entry x opcode x FIN x payload type x "
+    "key source x trace, all 1/2-byte payloads, a Unicode list: each written byte string must decode (independent decoder) to exactly one well-formed masked "
+    "frame with the caller's payload, the key drawn exactly once from the configured source, and the returned byte count.",
+    "Trusted: reference decoder mc/ref/rfc6455.py; os.urandom is observed through a recording shim placed at websocket._abnf.os.",
+    "DESIGN.md section 6 C01")
+reg("C02", "explore", "exploration",
+    "bounded-exhaustive enumeration of server frames (reference encoder) compared with the reference decoder, with cursor accounting",
+    "All legal first bytes x mask x every 7-bit length, boundary 16/64-bit lengths, 5 mask options, through recv_frame / recv_data_frame / recv_data / recv, "
+    "plus all tuples of up to 3 back-to-back frame classes each followed by a sentinel frame; bytes consumed per frame must be exact.",
+    "Trusted: reference encoder/decoder; ScriptSock cursor accounting.",
+    "DESIGN.md section 6 C02")
